@@ -229,6 +229,25 @@ func WriteCase(property, sub string, c any, observed any, msg string) {
 	}
 }
 
+// Begin records the case that is about to be executed in $VERIF_FAILCASE.cur.
+// Checks that run the code under test in-process with real goroutines (agent,
+// real executors) call it first: a panic in a goroutine of the code under test
+// cannot be recovered and kills the worker; the driver then promotes this file
+// to the failing case (a crash of the code under test on a generated input is
+// a violation, a worker death without a panic trace stays inconclusive).
+func Begin(property, sub string, c any) {
+	path := os.Getenv("VERIF_FAILCASE")
+	if path == "" {
+		return
+	}
+	raw, _ := json.Marshal(c)
+	b, _ := json.Marshal(CaseFile{Property: property, Sub: sub, Message: "the worker process died while this case was executing", Case: raw})
+	tmp := path + ".cur.tmp"
+	if err := os.WriteFile(tmp, b, 0o644); err == nil {
+		_ = os.Rename(tmp, path+".cur")
+	}
+}
+
 // LoadCase reads a case file.
 func LoadCase(path string) (*CaseFile, error) {
 	b, err := os.ReadFile(path)
